@@ -102,7 +102,7 @@ func runChecked(ev *eval.Evaler, ch *elvcore.Node) (elvcore.Event, error) {
 
 // validated: V.  Core programs with an injected defect, judged by TraceStatic.
 func validated(c *lib.Ctx) error {
-	nprog := c.Pick(300, 6000)
+	nprog := c.Pick(600, 6000)
 	progs := make([][]elvcore.Event, nprog)
 	errs := make([]error, nprog)
 	lib.Parallel(nprog, 8, func(i int) {
